@@ -5,7 +5,8 @@ EXTENDS GasService, Json, SequencesExt
 VARIABLE st
 People == {"alice", "bob", "owner0", "col0", "mallory"}
 Auths == {{p} : p \in People} \cup {{}}
-Acts(s) == {[name |-> n, sender |-> "bob", spender |-> "alice", token |-> t, amt |-> 1, auth |-> au] :
+HookActs == {[name |-> "HookOpenWindow"]}
+Acts(s) == HookActs \cup {[name |-> n, sender |-> "bob", spender |-> "alice", token |-> t, amt |-> 1, auth |-> au] :
                 n \in {"PayGas", "AddGas"}, t \in Tokens, au \in Auths}
            \* the service's own address named as spender by an outside caller
            \cup {[name |-> n, sender |-> "bob", spender |-> "gs", token |-> t, amt |-> 1, auth |-> au] :
@@ -19,9 +20,16 @@ Acts(s) == {[name |-> n, sender |-> "bob", spender |-> "alice", token |-> t, amt
            \cup {[name |-> n, sender |-> sd, spender |-> "alice", token |-> t, amt |-> 1, auth |-> {}, scoped |-> {"alice"}] :
                 n \in {"PayGas", "AddGas"}, sd \in {"alice", "bob"}, t \in Tokens}
 InitState == [bal |-> [t \in Tokens |-> [x \in Accts |-> IF x = "alice" THEN 2 ELSE 0]], collector |-> "col0", owner |-> "owner0"]
-Init == st = InitState
-Next == \E a \in Acts(st) : st' = Apply(st, a).post
-Step(P(_, _, _)) == \A a \in Acts(st) : P(st, a, Apply(st, a))
+(* `win`: the Upgradable interface's migration window is open (instance-level ghost, not observable; set by the
+   verification hook).  Every action is explored with the window closed AND open. *)
+WithWin(s, w) == [f \in DOMAIN s \cup {"win"} |-> IF f = "win" THEN w ELSE s[f]]
+ApplyW(s, a) ==
+    IF a.name = "HookOpenWindow"
+    THEN [ok |-> TRUE, why |-> "ok", fails |-> {}, free |-> FALSE, ret |-> "unit", ev |-> <<>>, post |-> [s EXCEPT !.win = TRUE]]
+    ELSE Apply(s, a)
+Init == st = WithWin(InitState, FALSE)
+Next == \E a \in Acts(st) : st' = ApplyW(st, a).post
+Step(P(_, _, _)) == \A a \in Acts(st) : a.name # "HookOpenWindow" => P(st, a, ApplyW(st, a))
 Named(s, a, r) == r.ok => a.spender \in a.auth
 Frame(s, a, r) == ~r.ok => r.post = s /\ r.ev = <<>>
 C07_Named == Step(Named)
@@ -32,7 +40,7 @@ Dump ==
     LET acts == SetToSeq(Acts(st)) IN
     PrintT(<<"NODE", ToJson([pre |-> st,
         edges |-> [i \in 1..Len(acts) |->
-            LET r == Apply(st, acts[i]) IN
+            LET r == ApplyW(st, acts[i]) IN
             [act |-> acts[i],
              exp |-> [ok |-> r.ok, why |-> r.why, fails |-> r.fails, free |-> r.free, ret |-> r.ret, ev |-> r.ev],
              post |-> IF r.post = st THEN "same" ELSE r.post]]])>>)
